@@ -49,6 +49,8 @@ def main():
            expect_violation="Determinacy")
     ck.tlc("CallHistory", "CallHistory_free.cfg", count=False,
            expect_violation="Determinacy")
+    ck.tlc("CallHistory", "CallHistory_split.cfg", count=False,
+           expect_violation="Determinacy")
 
     def quiet(fn, *a, **kw):
         with contextlib.redirect_stdout(io.StringIO()):
@@ -104,6 +106,9 @@ def main():
             self.svprop = StateVectorPropagator(self.tprop, self.HH)
             self.KK = RedfieldRateMatrix(self.ham, self.sbi)
             self.popprop = PopulationPropagator(self.tprop, self.KK)
+            # (the propagation matrices need the rates as an array)
+            self.popmat = PopulationPropagator(self.tprop,
+                                               rate_matrix=self.KK.data)
             self.p0 = numpy.array([0.0, 1.0, 0.0, 0.0])[:n]
             self.theom = qr.TimeAxis(0.0, 30, 1.0)
             self.hy = quiet(KTHierarchy, self.ham, self.sbi, 2)
@@ -226,6 +231,16 @@ def main():
                 return numpy.array([self.eso.data, self.esoG.data])
             if name == "pop_propagate":
                 return numpy.array(self.popprop.propagate(self.p0))
+            if name == "pop_matrix":
+                # arg 0: plain matrix; arg c > 0: with c perturbative orders
+                ts = qr.TimeAxis(self.tprop.start, self.tprop.length // 2,
+                                 2 * self.tprop.step)
+                if not arg:
+                    return numpy.array(
+                        self.popmat.get_PropagationMatrix(ts))
+                U, orders = self.popmat.get_PropagationMatrix(
+                    ts, corrections=arg, exact=True)
+                return numpy.array([U] + [numpy.array(o) for o in orders])
             if name == "sv_propagate":
                 r = self.svprop.propagate(self.psi0)
                 return numpy.array(r.data)
@@ -277,6 +292,8 @@ def main():
          ("nef_eso_calculate", None)],
         [("nef_propagate", 2), ("nef_eso_calculate", None),
          ("rdm_propagate", 1), ("nef_propagate", 2)],
+        [("pop_propagate", None), ("pop_matrix", 2), ("pop_propagate", None),
+         ("pop_matrix", 0), ("pop_matrix", 2)],
     ]
     seqs = [(q, v) for v in ("dimer", "trimer") for q in canon]
     for beh in behs:
@@ -297,6 +314,10 @@ def main():
                 seq.append(("nef_propagate", a[0]))
             elif act == "RDMPropagateRaises":
                 seq.append(("rdm_propagate_raises", a[0]))
+            elif act == "PopPropagate":
+                seq.append(("pop_propagate", None))
+            elif act == "PopMatrix":
+                seq.append(("pop_matrix", a[0]))
             elif act == "Stateless":
                 seq.append((a[0], None))
         if seq:
